@@ -194,6 +194,17 @@ def fast_invocation(prog, rep, profile, rule="fast-invocation"):
         n += 1
         want = [(op, pl.PROFILES[profile][0], tuple(("input", i + 1) for i in range(nargs)))]
         okk = seen == want and len(outs) == 1 and isinstance(outs[0].value, ip.Sym) and outs[0].value.name == ("forwarded", op)
+        if not okk and (profile, op) in sp.SPECS and nargs == 1:
+            # not a forwarder: the static form is then judged like the method itself — its own pipeline must be
+            # the operation's specified pipeline (e.g. it calls the helper the method is built from)
+            try:
+                paths = pl.extract(prog, key, [Str(("input",))])
+                want_p = [(ev, r) for ev, r, n_ in pl.spec_paths(sp.SPECS[(profile, op)], ("input",))]
+                d = pl.diff_paths(pl.commute_empty(paths), want_p)
+                rep.ob(rule, inst + " = the operation's pipeline", not d, "; ".join(d), b.where(), key="%s|%s" % (rule, inst))
+                continue
+            except ip.AnalysisError:
+                pass
         rep.ob(rule, inst, okk, "forwards %s; must forward %s and return that result unchanged" % (seen, want), b.where(), key="%s|%s" % (rule, inst))
     return n
 
